@@ -536,6 +536,7 @@ class Inliner:
         view = copy.copy(self)
         view.stores = list(self.stores)
         view.defs = _reaching(self.fn, node)
+        view.params = set()      # a parameter reads as itself until it is reassigned (its reaching definitions say which)
         return view
 
     def stored_value(self, e):
@@ -758,7 +759,12 @@ def _reaching(fn, node):
         return False
 
     body = fn.body if hasattr(fn, "body") else []
-    if not flow(body, {}):
+    env0 = {}
+    if isinstance(fn, (ast.FunctionDef, ast.AsyncFunctionDef)):
+        a = fn.args
+        for x in a.args + a.kwonlyargs + a.posonlyargs + ([a.vararg] if a.vararg else []) + ([a.kwarg] if a.kwarg else []):
+            env0[x.arg] = [ast.Name(id=x.arg, ctx=ast.Load())]     # the parameter itself
+    if not flow(body, env0):
         raise AnalysisError("reaching definitions: the program point is not inside the function")
     return result
 
